@@ -4,9 +4,11 @@ Twin-world, model-free differential check driven by an op list (the case is JSON
 
 From one widget-tree spec (vlib.gen_widgets) two identical but separate trees are built:
 
-  world A  uses urwid.CanvasCache exactly as an application would; every canvas A hands out is kept
-           alive in a list (as a Screen keeps the last top canvas) together with a snapshot of its
-           content, until a "drop" op releases them and runs gc.collect();
+  world A  uses urwid.CanvasCache exactly as an application would; the canvases A hands out are kept
+           alive together with a snapshot of their content - and so is every finalized canvas below
+           them (the canvases the cache handed to the parent widgets).  case["hold"] == "all": until a
+           "drop" op releases them (+ gc.collect); "last": like a Screen, only the canvas tree of the
+           latest root rendering, the previous one is released after the new one has been rendered;
   world B  performs every call with ``CanvasCache.fetch -> None`` and ``CanvasCache.store -> no-op``
            patched in (restored afterwards): for B the cache is always empty and B never adds to it,
            so A's entries, dependency lists and weakref clean-ups are left untouched
@@ -39,7 +41,10 @@ Deliberately weak readings:
   * pop-up coordinates and other canvas "coords" entries are not compared (content and cursor only);
   * only documented public mutators / writable properties are used; plain attribute writes
     (Padding.left, BoxAdapter.height, Divider.top ...) and WidgetWrap._w are outside the domain;
-  * new children are always built for the sizing mode of the slot they go into.
+  * new children are always built for the sizing mode of the slot they go into;
+  * a failing history in which some widget was handed a size with no room for its own borders/margins or a
+    dimension < 1 (vlib.gen_widgets.starved, the rule C01 uses) is discarded: layout in that regime is
+    erratic (0-column children are hidden, not rendered) and is outside the quantifier.
 """
 from __future__ import annotations
 
@@ -61,18 +66,19 @@ LEVEL = "exploration"
 RULE = (
     "Hypothesis cases {encoding (utf-8 x4, euc-jp, iso8859-1), root sizing mode box/flow/fixed, widget-tree "
     "spec of depth 1..3 (4 thorough) from vlib.gen_widgets (all leaves, decorations and containers of C01), "
-    "2-3 recurring sizes (1..24 x 1..10), op list (<=25 ops quick, <=60 thorough)} interpreted on a twin pair "
+    "2-3 recurring sizes (1..24 x 1..10), canvas holding policy all-until-drop / latest-root-rendering-only (as a "
+    "Screen), op list (<=25 ops quick, <=60 thorough)} interpreted on a twin pair "
     "(A cached / B with CanvasCache.fetch+store patched out). Ops: view(size index, focus); render / rows of "
     "any live node at a recurring size; keypress (16 keys) and mouse press (buttons 1/4/5, any cell) on the "
     "root; public mutation of the node at index n (walk order of the live tree) chosen from that class's "
-    "mutators: Text set_text/set_align_mode/set_wrap_mode, Edit set_caption/set_edit_text/set_edit_pos/"
+    "mutators (or, op 'again', of the node mutated last): Text set_text/set_align_mode/set_wrap_mode, Edit set_caption/set_edit_text/set_edit_pos/"
     "insert_text/set_mask, IntEdit, Button.set_label, CheckBox/RadioButton set_state/toggle_state/set_label, "
     "ProgressBar set_completion/done, BarGraph set_data/set_bar_width, BigText set_text/set_font, AttrMap "
     "set_attr_map/set_focus_map, AttrWrap set_attr/set_focus_attr, LineBox.set_title, Padding align=/width=, "
     "original_widget= on every decoration, Pile/Columns/GridFlow contents insert/delete/assign/options + "
     "focus_position=, GridFlow.cell_width=, Frame header/body/footer=/focus_position=, Overlay contents[0]/[1]= "
     "and set_overlay_parameters, ListBox set_focus/set_focus_valign/focus_position= and walker insert/delete/"
-    "replace, Scrollable.set_scrollpos, ScrollBar side/width; drop all held canvases + gc.collect(). ~15% of "
+    "replace, Scrollable.set_scrollpos, ScrollBar side/width; drop all held canvases + gc.collect(). ~20% of "
     "the ops are not followed by the comparison render. Non-trivial: a mutation of a strict descendant of the "
     "root is followed by the comparison render of the root at a (size, focus) that was rendered before the "
     "mutation while the canvases were still held; distinct by hash of the case."
@@ -85,7 +91,9 @@ ASSUMPTIONS = [
     "outside for world B; invalidate/cleanup stay real)",
     "content is compared as rows of merged (attr, charset, bytes) runs; no width table is needed",
     "a history in which urwid emits WidgetWarning (unsupported sizing combination) is mis-built and discarded; an "
-    "op raising the same exception type in both worlds ends the history without verdict",
+    "op raising the same exception type in both worlds ends the history without verdict; a FAILING history in which "
+    "a widget was handed a size with no room for its borders/margins or a dimension < 1 (gen_widgets.starved, as "
+    "C01) is discarded",
     "CPython reference counting: canvases are released when the harness drops them (plus gc.collect())",
 ]
 
@@ -140,6 +148,7 @@ class World:
     def __init__(self, name, cached):
         self.name, self.cached = name, cached
         self.root = None
+        self.rec = []  # (spec, size) of every render call on a widget built from a spec (vlib.gen_widgets.build)
 
 
 # ---------------------------------------------------------------------------------------------
@@ -338,6 +347,7 @@ def mutators(w, mode, ser, enc, build):
     elif isinstance(w, urwid.Text):  # Text, SelectableIcon
         add("set_text", lambda b, c: (w.set_text(payload_markup(b, ser, enc)), repr(payload_markup(b, ser, enc)))[1])
         add("set_text", lambda b, c: (w.set_text(payload_markup(b + 1, ser, enc)), repr(payload_markup(b + 1, ser, enc)))[1])
+        add("set_text", lambda b, c: (w.set_text(""), "''")[1])
         add("set_align_mode", lambda b, c: (w.set_align_mode(ALIGNS[b % 3]), ALIGNS[b % 3])[1])
         add("set_wrap_mode", lambda b, c: (w.set_wrap_mode(WRAPS[b % 4]), WRAPS[b % 4])[1])
     elif isinstance(w, urwid.RadioButton):
@@ -716,13 +726,18 @@ class Run:
         self.enc = case["enc"]
         self.mode = case["mode"]
         self.sizes = case["sizes"]
+        self.hold = case.get("hold", "all")  # "all": every canvas until a drop op; "last": like a Screen, only the
+        # canvases of the latest root rendering (the previous ones are released after the new one was rendered)
         self.A = World("A", True)
         self.B = World("B", False)
         self.held = []  # (canvas, snapshot, description) handed out in world A and still referenced
+        self.held_ids = set()
+        self.keep = []
         self.trace = []
         self.view = (0, True)
         self.rendered = set()  # views of the root rendered in A since the last drop
         self.nt = False
+        self.last_mut = None
         self.hits0 = urwid.CanvasCache.hits
         self.uncached = _Uncached()
 
@@ -773,14 +788,41 @@ class Run:
         if sa[3] != sb[3]:
             raise Violation("cursor-differs", self.msg(
                 f"{what} size {size} focus {focus}: cursor cached {sa[3]!r} != fresh {sb[3]!r}{self.same_tree(wa, size, focus, sa)}"))
-        if not any(c is ca for c, _s, _d in self.held):
+        if id(ca) not in self.held_ids:
             check_finalized(ca, wa, size, focus, what)
             s2 = snap(ca)
             if s2 != sa:
                 raise Violation("finalized-canvas-mutable", self.msg(f"{what}: a refused mutator changed the canvas"))
-            self.held.append((ca, sa, f"{what} size {size} focus {focus} after step {len(self.trace)}"))
+            self.hold_canvas(ca, sa, f"{what} size {size} focus {focus} after step {len(self.trace)}")
         check_finalized(cb, wb, size, focus, what + " (fresh)")
-        return sa
+        return ca
+
+    def hold_canvas(self, canv, s0, desc):
+        """keep a canvas handed out in world A alive, with the snapshot taken now; also every finalized canvas
+        below it (those are the canvases the cache handed to the parent widgets)"""
+        self.held.append((canv, s0, desc))
+        self.held_ids.add(id(canv))
+        stack = [canv]
+        while stack:
+            c = stack.pop()
+            for _x, _y, child, _pos in getattr(c, "children", ()):
+                if id(child) in self.held_ids:
+                    continue
+                self.held_ids.add(id(child))
+                if child.widget_info:
+                    wi = child.widget_info
+                    self.held.append((child, snap(child), f"{type(wi[0]).__name__} canvas {wi[1]} focus {wi[2]} inside [{desc}]"))
+                else:
+                    self.keep.append(child)  # keeps id() unique
+                stack.append(child)
+
+    def release(self, when, keep_last=None):
+        self.check_held(when)
+        del self.held[:]
+        del self.keep[:]
+        self.held_ids.clear()
+        if keep_last is not None:
+            self.hold_canvas(keep_last, snap(keep_last), "latest root rendering")
 
     def same_tree(self, wa, size, focus, sa):
         """diagnosis for the message: the strict same-tree comparison (A re-rendered without the cache)"""
@@ -819,14 +861,18 @@ class Run:
     def check_view(self, why):
         si, focus = self.view
         size = _size_for(self.mode, self.sizes[si % len(self.sizes)])
-        self.render_pair(f"root render ({why})", lambda world: world.root, size, focus)
+        ca = self.render_pair(f"root render ({why})", lambda world: world.root, size, focus)
+        if self.hold == "last":
+            # a Screen: the previous canvas tree is released once the new one has been rendered
+            self.release(f"release after {why}", keep_last=ca)
+            self.rendered.clear()
         self.rendered.add((si % len(self.sizes), focus))
 
     # -- the history ----------------------------------------------------------------------------
     def run(self):
         spec = self.case["spec"]
-        self.A.root = G.build(spec, self.enc)
-        self.B.root = G.build(spec, self.enc)
+        self.A.root = G.build(spec, self.enc, self.A.rec)
+        self.B.root = G.build(spec, self.enc, self.B.rec)
         try:
             self.check_view("init")
             for ser, op in enumerate(self.case["ops"]):
@@ -844,6 +890,7 @@ class Run:
             _count(f"stopped:{s}")
         finally:
             del self.held[:]
+            del self.keep[:]
         if urwid.CanvasCache.hits > self.hits0:
             _count("history:with-cache-hits")
 
@@ -862,8 +909,7 @@ class Run:
             self.trace.append(f"{ser}:view size#{self.view[0]} focus={self.view[1]}")
             return True
         if kind == "drop":
-            self.check_held(f"drop at step {ser}")
-            del self.held[:]
+            self.release(f"drop at step {ser}")
             # canvases hold no reference cycles: they die by reference count when dropped; the young
             # generations are collected as well (a full collection costs 0.3 s under Hypothesis' heap)
             gc.collect(1)
@@ -935,16 +981,22 @@ class Run:
                 raise Violation("result-differs", self.msg(f"mouse_event returned {ra!r} (cached) != {rb!r} (fresh)"))
             _count("op:mouse-handled" if ra else "op:mouse-unhandled")
             return True
-        if kind == "mut":
+        if kind in ("mut", "again"):
             na, _nb = self.nodes_pair()
+            if kind == "again":
+                # the node mutated last time (same walk index), e.g. set_text(x) ... set_text(y) on one widget
+                if self.last_mut is None:
+                    return False
+                op = [op[0], self.last_mut, *op[1:]]
             n = op[1] % len(na)
+            self.last_mut = n
             a, b, c = op[2], op[3], op[4]
             enc = self.enc
             info = {}
 
             def go(world):
                 w, mode, _d = live_nodes(world.root, self.mode)[n]
-                M = mutators(w, mode, ser, enc, lambda slot, k: G.build(new_spec(slot, k, ser), enc))
+                M = mutators(w, mode, ser, enc, lambda slot, k: G.build(new_spec(slot, k, ser), enc, world.rec))
                 if not M:
                     return None
                 name, fn = M[a % len(M)]
@@ -980,8 +1032,13 @@ def check_hist(case):
             warnings.simplefilter("always")
             try:
                 run.run()
-            except (Violation, Discard):
+            except Violation:
                 if any(issubclass(r.category, WidgetWarning) for r in wlog):
+                    raise Discard() from None
+                if G.starved(run.A.rec) or G.starved(run.B.rec):
+                    # somewhere in this history a widget was handed a size with no room for its own borders /
+                    # margins (or a dimension < 1): outside the quantifier, as in C01
+                    _count("discard:starved-size-in-failing-history")
                     raise Discard() from None
                 raise
             except Exception:
@@ -1026,11 +1083,13 @@ _op = st.one_of(
     st.tuples(st.just("mut"), _n, _arg, _arg, _arg),
     st.tuples(st.just("mut"), _n, _arg, _arg, _arg),
     st.tuples(st.just("mut"), _n, _arg, _arg, _arg),
+    st.tuples(st.just("again"), _arg, _arg, _arg),
+    st.tuples(st.just("again"), _arg, _arg, _arg),
     st.tuples(st.just("render"), _n, _si, st.booleans()),
     st.tuples(st.just("rows"), _n, _si, st.booleans()),
     st.tuples(st.just("drop")),
 )
-_op = st.tuples(st.sampled_from(["", "", "", "", "", "", "~"]), _op).map(lambda t: [t[0] + t[1][0], *t[1][1:]])
+_op = st.tuples(st.sampled_from(["", "", "", "", "~"]), _op).map(lambda t: [t[0] + t[1][0], *t[1][1:]])
 
 _wh = st.tuples(st.one_of(st.integers(1, 24), st.integers(4, 16)), st.one_of(st.integers(1, 10), st.integers(2, 6))).map(list)
 
@@ -1043,6 +1102,7 @@ def _cases(max_depth, max_ops):
                 "mode": st.just(m),
                 "spec": st.integers(1, max_depth).flatmap(lambda d: G.widget(m, d, enc)),
                 "sizes": st.lists(_wh, min_size=2, max_size=3),
+                "hold": st.sampled_from(["all", "last", "last"]),
                 "ops": st.lists(_op, min_size=2, max_size=max_ops),
             })
 
@@ -1052,7 +1112,7 @@ def _cases(max_depth, max_ops):
 
 
 def _classes(case):
-    out = [f"enc:{case['enc']}", f"root-mode:{case['mode']}", f"root:{case['spec']['cls']}", f"depth:{G.depth(case['spec'])}"]
+    out = [f"enc:{case['enc']}", f"hold:{case.get('hold', 'all')}", f"root-mode:{case['mode']}", f"root:{case['spec']['cls']}", f"depth:{G.depth(case['spec'])}"]
     for s in G.walk(case["spec"]):
         out.append(f"has:{s['cls']}")
     for k in {o[0].lstrip('~') for o in case["ops"]}:
@@ -1080,22 +1140,6 @@ def shard(ctx):
 # finding whose repair alone makes it hold).  The repairs are simulated from outside (class attributes swapped
 # for the duration of one evaluation, urwid's files are not touched) and are used by the predicates only,
 # never by the campaign.
-
-
-def _repair_valign():
-    """ListBox.set_focus_valign() + self._invalidate()"""
-    orig = urwid.ListBox.set_focus_valign
-
-    def set_focus_valign(self, valign):
-        orig(self, valign)
-        self._invalidate()
-
-    urwid.ListBox.set_focus_valign = set_focus_valign
-
-    def undo():
-        urwid.ListBox.set_focus_valign = orig
-
-    return undo
 
 
 def _repair_edit_text_level():
@@ -1185,7 +1229,6 @@ def _repair_scrollbar_nocache():
 
 
 _REPAIRS = {
-    "C06-listbox-valign-no-invalidate": _repair_valign,
     "C06-edit-focus-shift-cached-at-text-level": _repair_edit_text_level,
     "C06-columns-hidden-pack-column-not-a-dependency": _repair_columns_hidden_pack,
     "C06-scrollable-render-moves-position": _repair_scrollable_adjust,
@@ -1239,12 +1282,7 @@ def _caused_by(fid, case):
 _DIFF = ("content-differs", "cursor-differs")
 
 KNOWN = {
-    # ListBox.set_focus_valign() records the request but does not call _invalidate(): the ListBox's cached canvas
-    # (and every ancestor's) keeps being served with the old alignment until something else invalidates it
-    "C06-listbox-valign-no-invalidate": lambda sub, case, v: sub == "hist"
-    and v.clause in _DIFF
-    and "ListBox.set_focus_valign(" in v.message
-    and _caused_by("C06-listbox-valign-no-invalidate", case),
+    # (C06-listbox-valign-no-invalidate was fixed in /repo by 6fefaa1; replays/C06/fixed_listbox_valign_no_invalidate.json)
     # Edit.render() calls Text.render() through Text's cache wrapper, whose key ignores focus (Text.ignore_focus);
     # the Edit's layout does depend on focus (view shifted to the cursor), so the Text-level entry written by a
     # focus=True render is reused by the next focus=False render at that width (and vice versa)
@@ -1268,10 +1306,4 @@ KNOWN = {
     "C06-scrollbar-thumb-depends-on-undisplayed-content": lambda sub, case, v: sub == "hist"
     and v.clause in _DIFF
     and _caused_by("C06-scrollbar-thumb-depends-on-undisplayed-content", case),
-    # a flow Columns whose only displayed columns are box columns (the flow/pack columns were pushed out to make
-    # room for the focus column): render() gives a 0-row canvas, rows() reports 1; rows() answered from the cached
-    # canvas therefore differs from rows() computed afresh.  Root cause is the render/rows disagreement (C01).
-    "C06-columns-zero-row-render-vs-rows": lambda sub, case, v: sub == "hist"
-    and v.clause == "rows-differ:render-disagrees-with-rows:Columns"
-    and "cached 0 != fresh 1" in v.message,
 }
